@@ -289,17 +289,34 @@ def _lin_add(a, b, k=1):
 
 def _arity_vars(it, A, B):
     """{var name: side tag} for `v = len(head) if isinstance(head, tuple)
-    else 1`."""
+    else 1` (in either the expression or the statement form)."""
+    from ..cfg import atomic_guards as _ag
     out = {}
+    defs = {}
     for n in it.own_nodes():
         if isinstance(n, ast.Assign) and len(n.targets) == 1 and \
-                isinstance(n.targets[0], ast.Name) and isinstance(n.value, ast.IfExp):
-            v = n.value
-            for S in (A, B):
-                if text(v.test).replace(" ", "") == "isinstance(%s,tuple)" % S.head \
-                        and text(v.body).replace(" ", "") == "len(%s)" % S.head \
-                        and text(v.orelse) == "1":
-                    out[n.targets[0].id] = S.tag
+                isinstance(n.targets[0], ast.Name):
+            defs.setdefault(n.targets[0].id, []).append(n)
+    for name, ds in defs.items():
+        for S in (A, B):
+            tup = "isinstance(%s,tuple)" % S.head
+            if len(ds) == 1 and isinstance(ds[0].value, ast.IfExp):
+                v = ds[0].value
+                if text(v.test).replace(" ", "") == tup and \
+                        text(v.body).replace(" ", "") == "len(%s)" % S.head and \
+                        text(v.orelse) == "1":
+                    out[name] = S.tag
+            elif len(ds) == 2:
+                got = set()
+                for d in ds:
+                    gs = {(text(t).replace(" ", ""), pol) for t, pol in _ag(d)}
+                    val = text(d.value).replace(" ", "")
+                    if (tup, True) in gs and val == "len(%s)" % S.head:
+                        got.add("len")
+                    if (tup, False) in gs and val == "1":
+                        got.add("one")
+                if got == {"len", "one"}:
+                    out[name] = S.tag
     return out
 
 
